@@ -327,6 +327,16 @@ def r11_8(run, model):
                witness="\"col1\\tcol2\" (backslash, t) is emitted with a single backslash: Go prints a tab")
     run.ob("R11.8", "escape_go_string|escapes quote, backslash and control characters", {'"', "\\\\", "\\n"} <= esc or {'"', "\\", "\n"} <= esc or len(esc) >= 5, site(GOPP, f.node["sp"]),
            f"escaped characters: {sorted(esc)}; shortcuts: {len(shortcuts)}")
+    # characters a Go compiler refuses inside source text (NUL, a byte order mark) and the remaining control characters
+    guards = [S.norm_ws(run.facts.text(GOPP, a["guard"]["sp"])) for m in S.find(f.body, "Match") for a in m["arms"] if a.get("guard") is not None]
+    ctrl = any("is_control" in g or "is_ascii_control" in g or re.search(r"<\s*'?\\?u?\{?0*20", g) for g in guards)
+    bom = any(re.search(r"feff", g, re.I) for g in guards) or any(re.search(r"feff", e, re.I) for e in esc)
+    run.ob("R11.8", "escape_go_string|control characters are written as escapes", ctrl, site(GOPP, f.node["sp"]),
+           f"guards of the escaping match: {guards or 'none'}",
+           witness="a NUL byte in a multi-line string is copied raw into the Go source: gc reports `invalid NUL character`")
+    run.ob("R11.8", "escape_go_string|a byte order mark is written as an escape", bom, site(GOPP, f.node["sp"]),
+           f"guards of the escaping match: {guards or 'none'}",
+           witness="a string containing U+FEFF is copied raw: gc reports `invalid BOM in the middle of the file`")
 
 
 def r11_9(run, model):
@@ -570,6 +580,45 @@ def r11_19(run, model):
         raise AnalysisIncomplete("lower_ty: no TFunc with a params field found")
 
 
+def r11_21(run, model):
+    run.rule("R11.21", "arguments that reach the lowering of `lhs . rhs` are applied to its result: every arm of the match on the right operand "
+                       "that yields a node either uses `trailing_args` or reports an error - `(t.0)(5)` hands its argument list down to the "
+                       "projection, and an arm that ignores it deletes the call. Likewise a qualified path after `.` is reported, not cut "
+                       "down to its last segment")
+    LOWER = "crates/ast/src/lower.rs"
+    f = model.fn("lower_expr_with_args", LOWER)
+    dot = None
+    for m_ in S.find(f.body, "Match"):
+        for arm in m_["arms"]:
+            if re.fullmatch(r"MySyntaxKind::Dot", S.norm_ws(run.facts.text(LOWER, arm["pat"]["sp"]))) and arm["body"]["k"] == "Match":
+                dot = arm["body"]
+    if dot is None:
+        raise AnalysisIncomplete("lower_expr_with_args: the match on the right operand of `.` was not found")
+    n = 0
+    for arm in dot["arms"]:
+        pt = S.norm_ws(run.facts.text(LOWER, arm["pat"]["sp"]))
+        yields = [st for st in S.find(arm["body"], "Struct") if len(st["segs"]) >= 2 and st["segs"][-2] == "Expr"]
+        if not yields:
+            continue
+        n += 1
+        uses = "trailing_args" in S.idents(arm["body"])
+        run.ob("R11.21", f"lower_expr_with_args|`.` {re.sub(r'[^A-Za-z:]', '', pt)[:30]}: trailing arguments are applied", uses, site(LOWER, arm["sp"]),
+               f"arm builds {sorted({st['segs'][-1] for st in yields})}; mentions trailing_args: {uses}",
+               witness="let t = (inc, 1); (t.0)(5): Core shows `let _ = t.0`, the call and its argument are gone")
+        if "IdentExpr" in pt:
+            counts = re.search(r"ident_tokens\(\)\.(count|nth|skip)\(|\.len\(\)", S.norm_ws(run.facts.text(LOWER, arm["body"]["sp"]))) is not None
+            run.ob("R11.21", "lower_expr_with_args|`.` IdentExpr: a qualified name after the dot is reported", counts, site(LOWER, arm["sp"]),
+                   "the number of path segments is examined" if counts else "only `.last()` of the path's identifiers is read",
+                   witness="p.Nope::Other::y is accepted and read as p.y; p.Whatever::get() as p.get()")
+    run.floor("arms of the `.` lowering that build a node", n, 3)
+
+
+def r11_20(run, model):
+    """the lowering recognises an expression between items by Expr::can_cast: a kind missing there is dropped silently (shared with C20 R20.17)"""
+    from rules import c20
+    c20.cst_cast_agreement(run, model, "R11.20")
+
+
 def run(run, model):
     run.try_rule(r11_10, model)
     from rules import c10
@@ -595,4 +644,6 @@ def run(run, model):
     run.try_rule(r11_5, model)
     run.try_rule(r11_18, model)
     run.try_rule(r11_19, model)
+    run.try_rule(r11_20, model)
+    run.try_rule(r11_21, model)
     run.assume("documented precedence order is the one in the property statement (constant oracle)")
